@@ -66,6 +66,9 @@ class Gen:
             else: seen[self.names[a]] = a
         self.used = set()
         self.tid = 0; self.eid = 0; self.terms = {}; self.theory_names = {}
+        # term ids: consecutive from 0, or 0 handed out late (a guard's right-hand side may be term 0: C06-n), or with gaps
+        self.idmode = rng.choice(["seq", "seq", "late0", "late0", "sparse"]); self.zero_free = self.idmode == "late0"
+        if self.idmode != "seq": self.tid = 1
         self.elem_pool = []          # elements defined so far (also in earlier steps): later theory atoms may refer to them again
     def atom(self):
         a = self.r.randint(1, self.natoms) if not (self.big and self.r.random() < 0.2) else self.r.choice([I32, 100000, 4711])
@@ -85,32 +88,35 @@ class Gen:
             out.append((self.lit(), w))
         return out
     # --- theory
+    def alloc(self):
+        if self.zero_free and self.r.random() < 0.25: self.zero_free = False; return 0
+        i = self.tid; self.tid += 1 if self.idmode != "sparse" else self.r.choice([1, 1, 2, 5]); return i
     def term(self, depth=0):
         r = self.r.random()
-        i = self.tid
         if depth > 2 or r < 0.3:
+            i = self.alloc()
             if self.r.random() < 0.5: v = self.r.choice([0, 1, 42, -3, I32]); self.terms[i] = ("num", v); w = "TN,%d,%d" % (i, v)
             else: nm = self.r.choice(IDENTS); self.terms[i] = ("sym", nm); w = "TS,%d,%s" % (i, hexs(nm.encode()))
-            self.tid += 1; return i, [w]
+            return i, [w]
         ws = []
         if r < 0.75:       # function / operator
             isop = self.r.random() < 0.5
             nm = self.r.choice(OPS) if isop else self.r.choice(IDENTS)
-            f = self.tid; self.terms[f] = ("sym", nm); ws.append("TS,%d,%s" % (f, hexs(nm.encode()))); self.tid += 1
+            f = self.alloc(); self.terms[f] = ("sym", nm); ws.append("TS,%d,%s" % (f, hexs(nm.encode())))
             nargs = self.r.choice([1, 2, 2, 3] if isop else [0, 1, 2, 3])
             args = []
             for _ in range(nargs):
                 a, w = self.term(depth + 1); args.append(a); ws += w
-            i = self.tid; self.terms[i] = ("comp", f, args); ws.append("TC,%d,%d,%s" % (i, f, progs.lst(args))); self.tid += 1
+            i = self.alloc(); self.terms[i] = ("comp", f, args); ws.append("TC,%d,%d,%s" % (i, f, progs.lst(args)))
             return i, ws
         base = self.r.choice([-1, -2, -3]); args = []
         for _ in range(self.r.choice([0, 1, 2, 3])):
             a, w = self.term(depth + 1); args.append(a); ws += w
-        i = self.tid; self.terms[i] = ("comp", base, args); ws.append("TC,%d,%d,%s" % (i, base, progs.lst(args))); self.tid += 1
+        i = self.alloc(); self.terms[i] = ("comp", base, args); ws.append("TC,%d,%d,%s" % (i, base, progs.lst(args)))
         return i, ws
     def theory_atom(self, atom):
         ws = []
-        nm = self.r.choice(IDENTS); t = self.tid; self.terms[t] = ("sym", nm); ws.append("TS,%d,%s" % (t, hexs(nm.encode()))); self.tid += 1
+        nm = self.r.choice(IDENTS); t = self.alloc(); self.terms[t] = ("sym", nm); ws.append("TS,%d,%s" % (t, hexs(nm.encode())))
         elems = []; estruct = []
         for _ in range(self.r.choice([0, 1, 1, 2])):
             if self.elem_pool and self.r.random() < 0.3:
@@ -128,7 +134,7 @@ class Gen:
             self.elem_pool.append((e, ts, cond))
         guard = None
         if self.r.random() < 0.4:
-            op = self.tid; o = self.r.choice(["<=", "=", ">", "!="]); self.terms[op] = ("sym", o); ws.append("TS,%d,%s" % (op, hexs(o.encode()))); self.tid += 1
+            op = self.alloc(); o = self.r.choice(["<=", "=", ">", "!="]); self.terms[op] = ("sym", o); ws.append("TS,%d,%s" % (op, hexs(o.encode())))
             rhs, w = self.term(); ws += w
             guard = (op, rhs)
             ws.append("TG,%d,%d,%s,%d,%d" % (atom, t, progs.lst(elems), op, rhs))
